@@ -89,20 +89,22 @@ def run(ctx):
             q, t = mk_dps(rng, nq), mk_dps(rng, nt)
             for d in t:
                 d.id += 100
-            fn_name = str(rng.choice(['nblast', 'nblast', 'allbyall', 'smart']))
-            scores = str(rng.choice(['forward', 'mean'])) if fn_name != 'allbyall' else 'forward'
-            if fn_name == 'allbyall':
+            fn_name = str(rng.choice(['nblast', 'nblast', 'allbyall', 'smart', 'smart_aba']))
+            scores = str(rng.choice(['forward', 'mean', 'min', 'max'] + (['both'] if fn_name == 'nblast' else []))) if fn_name != 'allbyall' else 'forward'
+            if fn_name in ('allbyall', 'smart_aba'):
                 t, nt = q, nq
             def call(n_cores):
                 if fn_name == 'nblast':
                     return navis.nblast(q, t, scores=scores, n_cores=n_cores, progress=False)
                 if fn_name == 'allbyall':
                     return navis.nblast_allbyall(q, n_cores=n_cores, progress=False)
+                if fn_name == 'smart_aba':       # all-by-all shortcut of nblast_smart (target=None)
+                    return navis.nblast_smart(q, scores=scores, n_cores=n_cores, progress=False)
                 return navis.nblast_smart(q, t, scores=scores, n_cores=n_cores, progress=False)
             st0, base = guarded(call, 1)
             if st0 != 'ok':
                 ctx.violation('%s raised with n_cores=1' % fn_name, dict(function=fn_name, nq=nq, nt=nt, scores=scores), base,
-                              key='C09:smart-crash' if fn_name == 'smart' else None)
+                              key='C09:smart-crash' if fn_name.startswith('smart') else None)
                 continue
             # partitions navis can actually choose: at most one job row per query and one job column per target
             parts = [(r, c) for r in range(1, nq + 1) for c in range(1, nt + 1) if r * c > 1]
@@ -127,7 +129,7 @@ def run(ctx):
                     ctx.case((fn_name, nq, nt, scores, rows, cols, perm, ci), nontrivial=njobs >= 2, sample=desc if ci < 2 else None)
                     ctx.count('nblast:' + fn_name)
                     if st != 'ok':
-                        ctx.violation('%s raised for a forced job partition' % fn_name, desc, res)
+                        ctx.violation('%s raised for a forced job partition' % fn_name, desc, res, key='C09:both-multijob-crash' if scores == 'both' and njobs > 1 else None)
                         break
                     if list(res.index) != list(base.index) or list(res.columns) != list(base.columns):
                         ctx.violation('rows/columns not in input order under a forced partition', desc, dict(index=[str(i) for i in res.index], columns=[str(c) for c in res.columns]))
